@@ -52,10 +52,18 @@ func ASEIsolationLevelFromGo(lvl sql.IsolationLevel) (ASEIsolationLevel, error) 
 // ToGo returns the database/sql.IsolationLevel equivalent of the ASE
 // isolation level.
 func (lvl ASEIsolationLevel) ToGo() sql.IsolationLevel {
-	for sqlLvl, aseLvl := range sql2ase {
-		if aseLvl == lvl {
-			return sqlLvl
-		}
+	// Multiple sql.IsolationLevels map to the same ASEIsolationLevel in
+	// sql2ase, hence the reverse mapping must be explicit to be
+	// deterministic.
+	switch lvl {
+	case ASELevelReadUncommitted:
+		return sql.LevelReadUncommitted
+	case ASELevelReadCommitted:
+		return sql.LevelReadCommitted
+	case ASELevelRepeatableRead:
+		return sql.LevelRepeatableRead
+	case ASELevelSerializableRead:
+		return sql.LevelSerializable
 	}
 
 	return sql.LevelDefault
